@@ -3,6 +3,7 @@
 package hx
 
 import (
+	"strings"
 	"sync/atomic"
 
 	"github.com/hyperjumptech/grule-rule-engine/verifhook"
@@ -11,12 +12,33 @@ import (
 // OrderControlled reports whether the order hook is compiled in.
 const OrderControlled = true
 
+// setChooser: c decides the order of every range over the rule map m inside package engine (the
+// evaluation loops of Execute and FetchMatchingRules); every other instrumented site sees sorted order.
 func setChooser(m interface{}, c func(keys []string) []int) {
 	if c == nil {
 		verifhook.SetChooser(m, nil)
 		return
 	}
-	verifhook.SetChooser(m, verifhook.Chooser(c))
+	verifhook.SetChooser(m, func(site string, keys []string) []int {
+		if !strings.HasPrefix(site, "engine.") {
+			return nil
+		}
+		return c(keys)
+	})
+}
+
+// setCloneChooser: c decides the order in which KnowledgeBase.Clone visits the rules of blueprint map m.
+func setCloneChooser(m interface{}, c func(keys []string) []int) {
+	if c == nil {
+		verifhook.SetChooser(m, nil)
+		return
+	}
+	verifhook.SetChooser(m, func(site string, keys []string) []int {
+		if !strings.HasPrefix(site, "ast.") {
+			return nil
+		}
+		return c(keys)
+	})
 }
 
 // HookCalls returns the number of Order invocations so far.
